@@ -1,8 +1,279 @@
-(* C07 - Declarations: property theorems only (models: model/C07*.v, proofs: proofs/C07_*.v). *)
-From Coq Require Import ZArith QArith List Bool String.
+(* C07 - Declarations: invalid ones vanish, shorthands equal longhands, units agree, var() is substitution.
+   Property theorems only (models: model/C07*.v, proofs: proofs/C07_*.v). *)
+From Coq Require Import ZArith QArith List Bool String Permutation.
 Require Import WV.model.C07Tok WV.model.C07Decl WV.model.C07Expand WV.model.C07Full WV.model.C07Var WV.model.C07Units.
+Require Import WV.proofs.C07_decl WV.proofs.C07_expand WV.proofs.C07_full WV.proofs.C07_units WV.proofs.C07_var.
 Import ListNotations.
+Open Scope string_scope.
 
-Theorem C07_placeholder : True.
-Proof. exact I. Qed.
-Print Assumptions C07_placeholder.
+(* ---- 1. preprocess_declarations (css/validation/__init__.py), for every list of declarations and every
+   validator/expander table `validator : name -> tokens -> Ok longhands | Invalid | Crash` ----
+   pp = the generator's output, pp1 = what one item yields (declarations with an unresolvable name, no value or an
+   invalid value, parse errors, nested rules, at-rules, whitespace: Ok []). *)
+Section Preprocess.
+  Variable T0 T V : Type.
+  Variable strip : T0 -> T.
+  Variable is_empty : T -> bool.
+  Variable validator : string -> T -> res (list (string * V)).
+  Variable not_print proprietary unstable : string -> bool.
+  Notation pp := (pp T0 T V strip is_empty validator not_print proprietary unstable).
+  Notation pp1 := (pp1 T0 T V strip is_empty validator not_print proprietary unstable).
+  Notation resolve_name := (resolve_name not_print proprietary unstable).
+
+  Theorem C07_invalid_vanishes ds1 bad ds2 :
+    pp1 bad = Ok [] -> pp (ds1 ++ bad :: ds2) = pp (ds1 ++ ds2).
+  Proof. exact (vanishes T0 T V strip is_empty validator not_print proprietary unstable ds1 bad ds2). Qed.
+
+  Theorem C07_invalid_value_yields_nothing name lname value imp n :
+    resolve_name name lname = Some n -> validator n (strip value) = Invalid ->
+    pp1 (IDecl name lname value imp) = Ok [].
+  Proof. exact (invalid_yields_nothing T0 T V strip is_empty validator not_print proprietary unstable name lname value imp n). Qed.
+
+  Theorem C07_non_declaration_yields_nothing (d : item T0) : is_decl T0 d = false -> pp1 d = Ok [].
+  Proof. exact (non_declaration_yields_nothing T0 T V strip is_empty validator not_print proprietary unstable d). Qed.
+
+  (* the output is the concatenation, in source order, of what each item yields by itself *)
+  Theorem C07_order_preserved ds :
+    (forall d, In d ds -> pp1 d <> Crash) ->
+    pp ds = Ok (flat_map (fun d => match pp1 d with Ok l => l | _ => [] end) ds).
+  Proof. exact (pp_is_concat T0 T V strip is_empty validator not_print proprietary unstable ds). Qed.
+
+  Theorem C07_important_flag_carried name lname value imp imp' l :
+    pp1 (IDecl name lname value imp) = Ok l ->
+    Forall (fun o => snd o = imp) l /\
+    pp1 (IDecl name lname value imp') = Ok (map (fun o => (fst o, imp')) l).
+  Proof. exact (important_flag_carried T0 T V strip is_empty validator not_print proprietary unstable name lname value imp imp' l). Qed.
+
+  (* validators raise nothing but InvalidValues => no declaration block aborts the stylesheet *)
+  Theorem C07_no_crash ds : (forall n t, validator n t <> Crash) -> exists l, pp ds = Ok l.
+  Proof. exact (no_crash T0 T V strip is_empty validator not_print proprietary unstable ds). Qed.
+
+  (* a shorthand declaration = the longhand declarations whose own validation gives its (name, value) pairs *)
+  Theorem C07_shorthand_equals_longhands name lname value imp n l (longs : list (item T0)) :
+    resolve_name name lname = Some n -> is_empty (strip value) = false ->
+    validator n (strip value) = Ok l ->
+    Forall2 (fun nv d => exists dn dln dv n',
+               d = IDecl dn dln dv imp /\ resolve_name dn dln = Some n' /\ is_empty (strip dv) = false /\
+               validator n' (strip dv) = Ok [nv]) l longs ->
+    pp [IDecl name lname value imp] = pp longs.
+  Proof. exact (shorthand_equals_longhands T0 T V strip is_empty validator not_print proprietary unstable name lname value imp n l longs). Qed.
+End Preprocess.
+Print Assumptions C07_invalid_vanishes.
+Print Assumptions C07_invalid_value_yields_nothing.
+Print Assumptions C07_non_declaration_yields_nothing.
+Print Assumptions C07_order_preserved.
+Print Assumptions C07_important_flag_carried.
+Print Assumptions C07_no_crash.
+Print Assumptions C07_shorthand_equals_longhands.
+
+(* ---- 2. the two paths that consult no validator (validation/properties.py validate_non_shorthand,
+   expanders.py _find_var), over tinycss2 component values; prop_validator = the ~200 individual validators,
+   other_expander = the shorthands that are not modelled: both arbitrary ---- *)
+Section Pending.
+  Variable V0 : Type.
+  Variable known supported : string -> bool.
+  Variable prop_validator : string -> list tok -> option V0.
+  Variable is_color is_border_width is_border_style is_column_width is_column_count is_flex_basis : tok -> bool.
+  Variable flex_factor : tok -> option (Q * option Z).
+  Variable other_expander : string -> option (list tok -> res (list (string * value V0))).
+  Variable not_print proprietary unstable : string -> bool.
+  Notation full_pp := (full_pp V0 known supported prop_validator is_color is_border_width is_border_style
+                               is_column_width is_column_count is_flex_basis flex_factor other_expander
+                               not_print proprietary unstable).
+
+  Theorem C07_custom_property_kept name lname value imp :
+    prefix "--" name = true -> not_print name = false -> other_expander name = None ->
+    remove_whitespace value <> [] ->
+    full_pp [IDecl name lname value imp] = Ok [(underscore name, VRaw (remove_whitespace value), imp)].
+  Proof. exact (custom_property_kept V0 known supported prop_validator is_color is_border_width is_border_style
+                  is_column_width is_column_count is_flex_basis flex_factor other_expander
+                  not_print proprietary unstable name lname value imp). Qed.
+
+  Theorem C07_var_takes_pending_path name lname value imp n :
+    resolve_name not_print proprietary unstable name lname = Some n ->
+    prefix "--" n = false -> known n = true -> supported n = true ->
+    str_in n FOUR_SIDES = false -> str_in n BORDER_SIDES = false ->
+    str_in n ["border"; "border-radius"; "columns"; "flex"] = false -> other_expander n = None ->
+    any_var (remove_whitespace value) = true ->
+    full_pp [IDecl name lname value imp] = Ok [(underscore n, VPendingProp (remove_whitespace value) n, imp)].
+  Proof. exact (var_takes_pending_path V0 known supported prop_validator is_color is_border_width is_border_style
+                  is_column_width is_column_count is_flex_basis flex_factor other_expander
+                  not_print proprietary unstable name lname value imp n). Qed.
+
+  Theorem C07_var_in_four_sides_is_pending name lname value imp n :
+    resolve_name not_print proprietary unstable name lname = Some n ->
+    str_in n FOUR_SIDES = true -> any_var (remove_whitespace value) = true ->
+    full_pp [IDecl name lname value imp] =
+    Ok (map (fun ln => (underscore ln, VPendingExp (remove_whitespace value) n, imp)) (four_names n)).
+  Proof. exact (var_in_four_sides_is_pending V0 known supported prop_validator is_color is_border_width
+                  is_border_style is_column_width is_column_count is_flex_basis flex_factor other_expander
+                  not_print proprietary unstable name lname value imp n). Qed.
+End Pending.
+Print Assumptions C07_custom_property_kept.
+Print Assumptions C07_var_takes_pending_path.
+Print Assumptions C07_var_in_four_sides_is_pending.
+
+(* ---- 3. expanders (css/validation/expanders.py) ---- *)
+Section Expanders.
+  Variable V0 : Type.
+  Variable known supported : string -> bool.
+  Variable prop_validator : string -> list tok -> option V0.
+  Notation vns := (validate_non_shorthand V0 known supported prop_validator).
+  Notation validate_each := (validate_each V0 known supported prop_validator).
+
+  (* expand_four_sides: 1-4 values go to top/right/bottom/left as CSS 2.1 8.3 says (four_spec), 0 or more
+     than 4 are invalid *)
+  Theorem C07_four_sides_rule tokens name :
+    any_var tokens = false ->
+    expand_four_sides V0 known supported prop_validator tokens name =
+    match four_spec tokens with
+    | None => Invalid
+    | Some (top, right_, bottom, left_) =>
+        validate_each (combine (four_names name) [[top]; [right_]; [bottom]; [left_]])
+    end.
+  Proof. exact (four_sides_rule V0 known supported prop_validator tokens name). Qed.
+
+  Theorem C07_four_sides_count (tokens : list tok) :
+    four_spec tokens = None <-> (List.length tokens = 0 \/ 4 < List.length tokens)%nat.
+  Proof. exact (four_sides_count tokens). Qed.
+
+  (* ... and what it yields is what the four longhand declarations yield *)
+  Theorem C07_four_sides_equals_longhands tokens name top right_ bottom left_ out :
+    any_var tokens = false -> four_spec tokens = Some (top, right_, bottom, left_) ->
+    Forall (fun n => known n = true /\ supported n = true) (four_names name) ->
+    expand_four_sides V0 known supported prop_validator tokens name = Ok out ->
+    Forall2 (fun nv nt => vns [snd nt] (fst nt) false = Ok [nv])
+            out (combine (four_names name) [top; right_; bottom; left_]).
+  Proof. exact (four_sides_equals_longhands V0 known supported prop_validator tokens name top right_ bottom left_ out). Qed.
+
+  (* generic_expander: whatever the wrapped expander does, a valid shorthand sets exactly the expanded names,
+     each once, in their order ... *)
+  Theorem C07_shorthand_sets_every_longhand names wrapped tokens name l :
+    generic_expander V0 known supported prop_validator names wrapped tokens name = Ok l ->
+    map fst l = map (actual_name name) names.
+  Proof. exact (shorthand_sets_every_longhand V0 known supported prop_validator names wrapped tokens name l). Qed.
+
+  (* ... the omitted ones are reset to 'initial' ... *)
+  Theorem C07_omitted_longhands_are_initial name names results l nn :
+    emit V0 known supported prop_validator name names results = Ok l -> In nn names -> lookup nn results = None ->
+    In (actual_name name nn, VKeyword "initial") l.
+  Proof. exact (emit_omitted V0 known supported prop_validator name names results l nn). Qed.
+
+  (* ... and two values for the same longhand make it invalid *)
+  Theorem C07_duplicates_are_invalid names y1 y2 y3 n a b :
+    Forall (fun p => In (fst p) names) (y1 ++ (n, a) :: y2 ++ (n, b) :: y3) ->
+    collect names (y1 ++ (n, a) :: y2 ++ (n, b) :: y3) [] = Invalid.
+  Proof. exact (duplicates_are_invalid names y1 y2 y3 n a b). Qed.
+
+  (* border-top/right/bottom/left, outline, column-rule: every order of the components is the same declaration *)
+  Theorem C07_border_side_order_free is_color is_border_width is_border_style tokens tokens' name :
+    Permutation tokens tokens' -> any_var tokens = false ->
+    expand_border_side V0 known supported prop_validator is_color is_border_width is_border_style tokens name =
+    expand_border_side V0 known supported prop_validator is_color is_border_width is_border_style tokens' name.
+  Proof. exact (border_side_order_free V0 known supported prop_validator is_color is_border_width is_border_style
+                  tokens tokens' name). Qed.
+
+  (* border-radius: h{1,4} [ / v{1,4} ]? ; corners top-left, top-right, bottom-right, bottom-left get the
+     pairs of four_spec h and four_spec v (v = h without slash) *)
+  Theorem C07_border_radius_rule h v :
+    Forall (fun t => is_slash t = false) h -> Forall (fun t => is_slash t = false) v -> v <> [] ->
+    let result h v :=
+      match four_spec h, four_spec v with
+      | Some (h1, h2, h3, h4), Some (v1, v2, v3, v4) =>
+          let pairs := combine RADIUS_NAMES [[h1; v1]; [h2; v2]; [h3; v3]; [h4; v4]] in
+          bind (validate_each pairs) (fun _ => Ok pairs)
+      | _, _ => Invalid
+      end in
+    border_radius_inner V0 known supported prop_validator h = result h h /\
+    border_radius_inner V0 known supported prop_validator (h ++ TLit "/" :: v) = result h v /\
+    border_radius_inner V0 known supported prop_validator (h ++ [TLit "/"]) = Invalid /\
+    (forall w, border_radius_inner V0 known supported prop_validator (h ++ TLit "/" :: v ++ TLit "/" :: w) = Invalid).
+  Proof. exact (border_radius_rule V0 known supported prop_validator h v). Qed.
+
+  (* columns: the two components in either order (only `auto` is both a width and a count) *)
+  Theorem C07_columns_order_free is_column_width is_column_count a b name :
+    (forall t, is_column_width t = true -> is_column_count t = true -> kw_is t "auto" = true) ->
+    kw_is a "auto" && kw_is b "auto" = false -> any_var [a; b] = false ->
+    expand_columns V0 known supported prop_validator is_column_width is_column_count [a; b] name =
+    expand_columns V0 known supported prop_validator is_column_width is_column_count [b; a] name.
+  Proof. exact (columns_order_free V0 known supported prop_validator is_column_width is_column_count a b name). Qed.
+End Expanders.
+Print Assumptions C07_four_sides_rule.
+Print Assumptions C07_four_sides_count.
+Print Assumptions C07_four_sides_equals_longhands.
+Print Assumptions C07_shorthand_sets_every_longhand.
+Print Assumptions C07_omitted_longhands_are_initial.
+Print Assumptions C07_duplicates_are_invalid.
+Print Assumptions C07_border_side_order_free.
+Print Assumptions C07_border_radius_rule.
+Print Assumptions C07_columns_order_free.
+
+(* flex: none | [ <grow> <shrink>? || <basis> ]: g, s numbers, b a basis that is not a number, z the unitless zero *)
+Theorem C07_flex_rule is_flex_basis flex_factor g s b z G S Z0 :
+  get_keyword g = None -> is_int_zero g = false -> is_flex_basis g = false -> flex_factor g = Some G ->
+  get_keyword s = None -> is_int_zero s = false -> is_flex_basis s = false -> flex_factor s = Some S ->
+  is_int_zero b = false -> is_flex_basis b = true -> kw_is b "none" = false -> flex_factor b = None ->
+  is_int_zero z = true -> get_keyword z = None -> flex_factor z = Some Z0 -> is_flex_basis z = true ->
+  let yield g s b := Ok [("-grow", [num_tok g]); ("-shrink", [num_tok s]); ("-basis", [b])] in
+  let flex := flex_inner is_flex_basis flex_factor in
+  flex [TIdent "none" "none"] = yield (0%Q, Some 0%Z) (0%Q, Some 0%Z) AUTO /\
+  flex [g] = yield G ONE ZERO_PX /\ flex [g; s] = yield G S ZERO_PX /\ flex [b] = yield ONE ONE b /\
+  flex [g; b] = yield G ONE b /\ flex [b; g] = yield G ONE b /\
+  flex [g; s; b] = yield G S b /\ flex [b; g; s] = yield G S b /\
+  flex [z] = yield Z0 ONE ZERO_PX /\ flex [g; z] = yield G Z0 ZERO_PX /\ flex [g; s; z] = yield G S z /\
+  flex [g; s; g] = Invalid /\ flex [b; b] = Invalid.
+Proof. exact (flex_rule is_flex_basis flex_factor g s b z G S Z0). Qed.
+Print Assumptions C07_flex_rule.
+
+(* ---- 4. units (css/utils.py LENGTHS_TO_PIXELS, css/computed_values.py length) ---- *)
+Theorem C07_unit_table_exact :
+  exists f_px f_pt f_pc f_in f_cm f_mm f_q,
+    factor "px" = Some f_px /\ factor "pt" = Some f_pt /\ factor "pc" = Some f_pc /\ factor "in" = Some f_in /\
+    factor "cm" = Some f_cm /\ factor "mm" = Some f_mm /\ factor "q" = Some f_q /\
+    (f_px == 1 /\ f_in == 96 /\ f_pt * 3 == 4 /\ f_pc == 16 /\ f_cm * 254 == 9600 /\ f_mm * 254 == 960 /\
+     f_q * 1016 == 960)%Q.
+Proof. exact unit_table_exact. Qed.
+Print Assumptions C07_unit_table_exact.
+
+(* per_inch = CSS Values 3, 5.2 ; lengths that are the same number of inches compute to the same pixels *)
+Theorem C07_equal_lengths_interchangeable v1 u1 v2 u2 p1 p2 :
+  per_inch u1 = Some p1 -> per_inch u2 = Some p2 -> (v1 / p1 == v2 / p2)%Q ->
+  exists x1 x2, length_px v1 u1 = Some x1 /\ length_px v2 u2 = Some x2 /\ (x1 == x2)%Q.
+Proof. exact (equal_lengths_interchangeable v1 u1 v2 u2 p1 p2). Qed.
+Print Assumptions C07_equal_lengths_interchangeable.
+
+(* ---- 5. var() (css/__init__.py resolve_var + ComputedStyle.__missing__) ----
+   Subst env key fallback var_name: textual substitution (model/C07Var.v); the implementation stores --a-b under
+   `__a_b` (impl_key) and takes as fallback the arguments after the name without their commas (impl_fallback). *)
+Theorem C07_var_is_substitution env fuel tokens r :
+  solved_tokens env fuel tokens = Some (RToks r) ->
+  SubstL env impl_key impl_fallback impl_var_name tokens r.
+Proof. exact (solved_tokens_sound env fuel tokens r). Qed.
+Print Assumptions C07_var_is_substitution.
+
+(* acyclic definitions (ranked) and no var()-free function next to a var() (regular): some fuel is enough,
+   and then any more *)
+Theorem C07_var_fuel_sufficient env rk n tokens :
+  ranked env rk -> Forall (fun t => refs_lt rk n t = true /\ regular t = true) tokens ->
+  exists F, forall f, (F <= f)%nat ->
+    exists r, solved_tokens env f tokens = Some (RToks r) /\ SubstL env impl_key impl_fallback impl_var_name tokens r.
+Proof. exact (fun H => solved_tokens_fuel_sufficient env rk H n tokens). Qed.
+Print Assumptions C07_var_fuel_sufficient.
+
+(* where the implementation is NOT substitution (each replayed on the implementation by the stream var-direct
+   and the render stream): cycles never end; a var()-free function next to a var() raises; the commas of a
+   fallback are lost; --a-b and --a_b are one property *)
+Theorem C07_var_refuted :
+  (let env := fun k => if String.eqb k "__x" then [VAR "--x" []] else [] in
+   forall fuel, resolve_var env fuel (VAR "--x" []) = None) /\
+  (let env := fun k => if String.eqb k "__a" then [TAtom 5] else [] in
+   let t := TFunc "calc" "calc" [VAR "--a" []; TFunc "max" "max" [TAtom 1]] in
+   (forall fuel, resolve_var env (S (S (S fuel))) t = Some RTypeError) /\
+   Subst env impl_key impl_fallback impl_var_name t [TFunc "calc" "calc" [TAtom 5; TFunc "max" "max" [TAtom 1]]]) /\
+  (let env := fun _ : string => @nil tok in
+   let args := [TIdent "--u" "--u"; TLit ","; TWs; TIdent "a" "a"; TLit ","; TWs; TIdent "b" "b"] in
+   resolve_var env 2 (TFunc "var" "var" args) = Some (RToks [TIdent "a" "a"; TIdent "b" "b"]) /\
+   css_fallback args = [TIdent "a" "a"; TLit ","; TIdent "b" "b"]) /\
+  (impl_key "--a-b" = impl_key "--a_b" /\ "--a-b" <> "--a_b").
+Proof. exact var_refuted. Qed.
+Print Assumptions C07_var_refuted.
